@@ -209,26 +209,54 @@ def build_shared_features_map(mod: fx.GraphModule,
             n, mod, exclude_names, exclude_types)
 
     # each weakly connected component of the sharing graph must share the same features masker
+    comps = [set(c) for c in nx.weakly_connected_components(sharing_graph)]
+    comp_of = {n: i for i, c in enumerate(comps) for n in c}
+
+    def searchable_layer(n: fx.Node) -> bool:
+        return is_layer(n, mod, (nn.Conv1d, nn.Conv2d, nn.Linear)) and not excluded_layer(n)
+
+    # the number of features must be "frozen" for input-connected or output-connected components
+    # and for components that contain or feed a layer excluded from the NAS
+    frozen = set()
+    for i, c in enumerate(comps):
+        if (
+            any(n in get_graph_inputs(mod.graph) for n in c) or
+            any(n in get_graph_outputs(mod.graph) for n in c) or
+            any(n.meta.get('output_connected', False) for n in c) or
+            any(excluded_layer(n) or any(excluded_layer(u) for u in n.users) for n in c)
+        ):
+            frozen.add(i)
+        # the features of a concatenation are decided by its operands: a component in which a
+        # concatenation meets a layer that needs a masker (a residual add of a concat and a conv,
+        # a depthwise conv after a concat) or another concatenation cannot be pruned consistently
+        cats = [n for n in c if n.meta['features_concatenate']]
+        if cats and (len(cats) > 1 or any(searchable_layer(n) for n in c)):
+            frozen.add(i)
+    # ...and neither can the operands of a concatenation whose features are frozen
+    work = list(frozen)
+    while work:
+        i = work.pop()
+        for n in comps[i]:
+            if n.meta['features_concatenate']:
+                for p in n.all_input_nodes:
+                    if comp_of[p] not in frozen:
+                        frozen.add(comp_of[p])
+                        work.append(comp_of[p])
+
     sm_dict = {}
-    for c in nx.weakly_connected_components(sharing_graph):
+    for i, c in enumerate(comps):
         sm = None
-        for n in c:
-            # identify a node which can give us the number of features with 100% certainty
-            # such as a convolution. Nodes such as flatten/squeeze/view/etc make this necessary
-            if n.meta['features_defining'] or n.meta['untouchable'] and sm is None:
-                # distinguish the case in which the number of features must "frozen"
-                # i.e. the case of input-connected or output-connected components, and of
-                # components that contain or feed a layer excluded from the NAS
-                if (
-                    any(n in get_graph_inputs(mod.graph) for n in c) or
-                    any(n in get_graph_outputs(mod.graph) for n in c) or
-                    any(n.meta.get('output_connected', False) for n in c) or
-                    any(excluded_layer(n) or any(excluded_layer(u) for u in n.users) for n in c)
-                ):
-                    sm = PITFrozenFeaturesMasker(n.meta['tensor_meta'].shape[1])
-                else:
-                    sm = PITFeaturesMasker(n.meta['tensor_meta'].shape[1])
-                break
+        # identify a node which can give us the number of features with 100% certainty
+        # such as a convolution. Nodes such as flatten/squeeze/view/etc make this necessary
+        width_nodes = [n for n in c if n.meta['features_defining'] or n.meta['untouchable']]
+        if not width_nodes and i in frozen:
+            width_nodes = [n for n in c if n.meta['features_concatenate']]
+        if width_nodes:
+            n = width_nodes[0]
+            if i in frozen:
+                sm = PITFrozenFeaturesMasker(n.meta['tensor_meta'].shape[1])
+            else:
+                sm = PITFeaturesMasker(n.meta['tensor_meta'].shape[1])
         for n in c:
             sm_dict[n] = sm
     return sm_dict
